@@ -46,12 +46,16 @@ HEAD_KINDS = ["HN", "HA", "HB", "HV"]
 BODY_KINDS = ["BN", "BA", "BB", "BV"]
 DET_ORDER = ["HA", "HN", "HV", "HB", "BA", "BN", "BV", "BB"]
 PROB_KINDS = {"quick": ["N", "D", "P"], "thorough": ["N", "D", "P", "Q"]}
+PROB_KINDS_SIZE4 = ["N", "D", "P"]
 PROB_ORDER = ["D", "N", "P", "Q"]
 
 # what each tier enumerates; (size, styles, patterns, queries)
 #   patterns "ab": 4^k (applicable or not for each of a, b); "a": 2^k (call argument a only)
 #   queries: list of (variant, argument)
 ALLQ = [("cut1", "a"), ("cut2", "a"), ("cut1", "b"), ("cut2", "b")]
+# over the 4^k patterns every a-column meets every b-column, so cut/1 on a and cut/2 on b together
+# still put every applicability vector through both variants
+CROSSQ = [("cut1", "a"), ("cut2", "b")]
 BOUNDS = {
     "quick": {
         "det": [
@@ -66,8 +70,9 @@ BOUNDS = {
         "det": [
             (1, ["head", "body"], "ab", {"head": ALLQ, "body": ALLQ}),
             (2, ["head", "body", "mixed"], "ab", {"head": ALLQ, "body": ALLQ, "mixed": ALLQ}),
-            (3, ["head", "body", "mixed"], "ab", {"head": ALLQ, "body": ALLQ, "mixed": ALLQ}),
-            (4, ["head", "body"], "ab", {"head": ALLQ, "body": ALLQ}),
+            (3, ["head", "body", "mixed"], "ab", {"head": ALLQ, "body": ALLQ, "mixed": CROSSQ}),
+            (4, ["head"], "ab", {"head": CROSSQ}),
+            (4, ["body"], "a", {"body": [("cut1", "a"), ("cut2", "a")]}),
         ],
         "prob": [(1, ["cut1", "cut2"]), (2, ["cut1", "cut2"]), (3, ["cut1", "cut2"]), (4, ["cut1", "cut2"])],
     },
@@ -212,7 +217,7 @@ def eval_case(case):
     if case["family"] == "det":
         exp = expected_det(case["indices"], case["kinds"], case["variant"], case["arg"])
         h = BuiltinHarness(program_text(case))
-        res = h.query(goal_text(case["variant"], case["arg"]))
+        res = h.query(goal_text(case["variant"], case["arg"]), timeout=20)
         if res[0] == "ok":
             obs = set(res[1])
             sym = None if obs == exp else "wrong-answers"
@@ -221,7 +226,7 @@ def eval_case(case):
             out = (classify(res), sorted(exp), list(res))
     else:
         exp = expected_prob(case["indices"], case["kinds"], case["queries"])
-        res = infer(program_text(case))
+        res = infer(program_text(case), timeout=60)
         if res[0] == "ok":
             bad = prob_mismatch(exp, res[1])
             out = ("wrong-probability" if bad else None, exp, res[1])
@@ -318,6 +323,12 @@ def shrink_case(case, symptom, fast=False):
 
 # ---------------------------------------------------------------------------------------------
 
+# a shard stops after this many violating executions (reported as CAP; only ever reached on a tree
+# where the property is broadly violated - every one of them has been confirmed, shrunk and keyed)
+MAX_VIOLATIONS_PER_SHARD = 50
+TIMEOUT_CAP = "some executions hit the per-call watchdog and were not judged (counters.timeouts)"
+
+
 def subsets(size):
     return [list(c) for c in itertools.combinations(ALPHABET, size)]
 
@@ -356,8 +367,10 @@ class C33(Prop):
             "not per call argument a, b; calls cut/1 and cut/2.  quick: sizes 1-2 all 4^k patterns x 2 styles x 4 "
             "calls; size 3 the 2^k patterns of argument a x 2 styles x cut/1, cut/2; size 4 the 2^k patterns of "
             "argument a with >= 2 applicable rules in head style through cut/2.  thorough: all 4^k patterns x 2 "
-            "styles x 4 calls for sizes <= 4 plus every mixed-style pattern for sizes 2-3.  prob: kinds N/D/P "
-            "(quick, sizes <= 3; size 3 through cut/2 only) and N/D/P/Q (thorough, sizes <= 4), all file orders, "
+            "styles x 4 calls for sizes <= 3, every mixed-style pattern for sizes 2-3 (size 3: cut/1 on a, cut/2 on "
+            "b); size 4: all 4^k patterns in head style (cut/1 on a, cut/2 on b) and the 2^k patterns of argument a "
+            "in body style (cut/1, cut/2).  prob: kinds N/D/P "
+            "(quick, sizes <= 3; size 3 through cut/2 only) and N/D/P/Q (thorough, sizes <= 3; size 4 N/D/P), all file orders, "
             "queries cut/1 and cut/2.  "
             "Non-trivial: at least two rules and the winner is not decided by the file order alone, i.e. the first "
             "applicable clause in file order is not the expected winner, or (prob) at least one probabilistic "
@@ -417,12 +430,12 @@ class C33(Prop):
         fam, subset, styles, first = shard
         orders = [list(p) for p in itertools.permutations(subset) if first is None or p[0] == first]
         if fam == "det":
-            spec = [x for x in BOUNDS[tier]["det"] if x[0] == len(subset)][0]
             for style in styles:
+                spec = [x for x in BOUNDS[tier]["det"] if x[0] == len(subset) and style in x[1]][0]
                 self._det(subset, orders, style, spec[2], spec[3][style], acc)
         else:
             queries = [q for size, q in BOUNDS[tier]["prob"] if size == len(subset)][0]
-            self._prob(subset, orders, PROB_KINDS[tier], queries, acc)
+            self._prob(subset, orders, PROB_KINDS[tier] if len(subset) < 4 else PROB_KINDS_SIZE4, queries, acc)
 
     # -- deterministic ----------------------------------------------------------------------
     def _det(self, subset, orders, style, patterns, queries, acc):
@@ -437,21 +450,28 @@ class C33(Prop):
             if acc.expired():
                 acc.cap("wall budget reached inside shard")
                 return
+            if acc.violation_count >= MAX_VIOLATIONS_PER_SHARD:
+                acc.cap("a shard stopped after %d violating executions" % MAX_VIOLATIONS_PER_SHARD)
+                acc.counters["shards_stopped_on_violations"] += 1
+                return
             chunk = sets[lo:lo + CH]
             text = HEADER + "".join(
                 ruleset_text("det", order, kinds, "r%d" % n, "t%d" % n) for n, (order, kinds) in enumerate(chunk))
             h = BuiltinHarness(text)
             for n, (order, kinds) in enumerate(chunk):
+                if acc.violation_count >= MAX_VIOLATIONS_PER_SHARD:
+                    break
                 acc.states += 1
                 pred = "r%d" % n
                 for variant, arg in queries:
                     exp = expected_det(order, kinds, variant, arg, pred)
-                    res = h.query(goal_text(variant, arg, pred))
+                    res = h.query(goal_text(variant, arg, pred), timeout=20)
                     acc.evaluations += 1
                     acc.transitions += 1
                     case = {"family": "det", "indices": order, "kinds": kinds, "variant": variant, "arg": arg}
                     if res[0] in ("timeout", "recursion"):
                         acc.counters["timeouts"] += 1
+                        acc.cap(TIMEOUT_CAP)
                         continue
                     acc.traces += 1
                     col = 0 if arg == "a" else 1
@@ -482,6 +502,10 @@ class C33(Prop):
             if acc.expired():
                 acc.cap("wall budget reached inside shard")
                 return
+            if acc.violation_count >= MAX_VIOLATIONS_PER_SHARD:
+                acc.cap("a shard stopped after %d violating executions" % MAX_VIOLATIONS_PER_SHARD)
+                acc.counters["shards_stopped_on_violations"] += 1
+                return
             pats = [list(ks) for ks in itertools.product(kinds_alphabet, repeat=k)]
             CH = 32
             for lo in range(0, len(pats), CH):
@@ -495,7 +519,8 @@ class C33(Prop):
                 acc.evaluations += 1
                 acc.transitions += len(queries) * len(chunk)
                 if res[0] in ("timeout", "recursion"):
-                    acc.counters["timeouts"] += 1
+                    acc.counters["timeouts"] += len(chunk)
+                    acc.cap(TIMEOUT_CAP)
                     continue
                 exp = {}
                 for n, kinds in enumerate(chunk):
@@ -556,6 +581,7 @@ class C33(Prop):
         if sym is None:
             if isinstance(obs, list) and obs and obs[0] in ("timeout", "recursion"):
                 acc.counters["timeouts"] += 1
+                acc.cap(TIMEOUT_CAP)
                 return
             acc.counters["batch_only_mismatch"] += 1
             acc.cap("mismatch inside a batched program that the stand-alone program does not reproduce: %r" % (case,))
